@@ -190,18 +190,33 @@ func maybeReadSearchKeyAtom(dec *imapwire.Decoder, ptr *string) bool {
 	})
 }
 
+// This limits the nesting depth of NOT and OR search keys to prevent stack
+// overflow. Parenthesized lists are limited by the decoder.
+const maxSearchKeyDepth = 1000
+
 func readSearchKey(criteria *imap.SearchCriteria, dec *imapwire.Decoder) error {
-	var key string
-	if maybeReadSearchKeyAtom(dec, &key) {
-		return readSearchKeyWithAtom(criteria, dec, key)
-	}
-	return dec.ExpectList(func() error {
-		return readSearchKey(criteria, dec)
-	})
+	return readSearchKeyDepth(criteria, dec, 0)
 }
 
 func readSearchKeyWithAtom(criteria *imap.SearchCriteria, dec *imapwire.Decoder, key string) error {
+	return readSearchKeyWithAtomDepth(criteria, dec, key, 0)
+}
+
+func readSearchKeyDepth(criteria *imap.SearchCriteria, dec *imapwire.Decoder, depth int) error {
+	var key string
+	if maybeReadSearchKeyAtom(dec, &key) {
+		return readSearchKeyWithAtomDepth(criteria, dec, key, depth)
+	}
+	return dec.ExpectList(func() error {
+		return readSearchKeyDepth(criteria, dec, depth)
+	})
+}
+
+func readSearchKeyWithAtomDepth(criteria *imap.SearchCriteria, dec *imapwire.Decoder, key string, depth int) error {
 	key = strings.ToUpper(key)
+	if (key == "NOT" || key == "OR") && depth >= maxSearchKeyDepth {
+		return newClientBugError("SEARCH keys are nested too deeply")
+	}
 	switch key {
 	case "ALL":
 		// nothing to do
@@ -307,7 +322,7 @@ func readSearchKeyWithAtom(criteria *imap.SearchCriteria, dec *imapwire.Decoder,
 			return dec.Err()
 		}
 		var not imap.SearchCriteria
-		if err := readSearchKey(&not, dec); err != nil {
+		if err := readSearchKeyDepth(&not, dec, depth+1); err != nil {
 			return err
 		}
 		criteria.Not = append(criteria.Not, not)
@@ -316,13 +331,13 @@ func readSearchKeyWithAtom(criteria *imap.SearchCriteria, dec *imapwire.Decoder,
 			return dec.Err()
 		}
 		var or [2]imap.SearchCriteria
-		if err := readSearchKey(&or[0], dec); err != nil {
+		if err := readSearchKeyDepth(&or[0], dec, depth+1); err != nil {
 			return err
 		}
 		if !dec.ExpectSP() {
 			return dec.Err()
 		}
-		if err := readSearchKey(&or[1], dec); err != nil {
+		if err := readSearchKeyDepth(&or[1], dec, depth+1); err != nil {
 			return err
 		}
 		criteria.Or = append(criteria.Or, or)
